@@ -185,7 +185,11 @@ def check_sentence_lines(ctx: Ctx) -> None:
     out_lists = {d.var for n in body for d in flow.defs_at[n] if d.kind == "mutate" and isinstance(d.value, ast.Call)
                  and isinstance(d.value.func, ast.Attribute) and d.value.func.attr == "extend"}
     ctx.note("sentence_loop_carried", sorted(carried))
-    allowed = set(out_lists) | {"first_line"}
+    # besides the output list: one-way switches ("first line") and append-only accumulators, whatever they are called
+    from .common import unexpected_carried
+
+    _c, harmless = unexpected_carried(prog, lw, h)
+    allowed = set(out_lists) | set(harmless)
     ctx.ob("R-SENT", f"{lw.qual} :: state carried across sentences", carried <= allowed and bool(out_lists),
            f"only the output line list and the first-line flag may be carried from one sentence to the next; carried: {sorted(carried)}", where(lw, h))
     for L in out_lists:
@@ -1116,7 +1120,9 @@ def check_accounting(ctx: Ctx, markdown_only: bool = False) -> None:
     # width <= 0: single line, before any splitting
     for f, target in ((wl, "splitter"), (sw, "split_sentences")):
         fl = prog.flow(f)
-        guards = [n for n in fl.cfg.nodes if n.kind == "test" and isinstance(n.ast, ast.Compare) and norm(n.ast) in ("width <= 0", "width < 1", "0 >= width")]
+        # (the test may sit behind a temporary: `no_wrapping = width <= 0 ... if no_wrapping:`)
+        guards = [n for n in fl.cfg.nodes if n.kind == "test" and isinstance(n.ast, (ast.Compare, ast.Name))
+                  and norm(expand_expr(prog, f, n.ast, n, strict=False)) in ("width <= 0", "width < 1", "0 >= width", "1 > width")]
         ok = False
         for g in guards:
             tsucc = [s for s, lab in g.succ if lab == "T"]
